@@ -280,6 +280,14 @@ def execute(plan, ctx):
                 old_vals = list(dd['grp']) if not isinstance(dd['grp'], np.ndarray) else dd['grp'].tolist()
                 k = 1 + o['perm_seed'] % (len(old_vals) - 1)
                 new_vals = old_vals[k:] + old_vals[:k]
+                if o['perm_seed'] % 3 == 0:
+                    # ... and the groups get names the object never carried before (and, sometimes, fewer of them)
+                    ren = (lambda v: v + 'z') if isinstance(new_vals[0], str) else (lambda v: v + 50)
+                    new_vals = [ren(v) for v in new_vals]
+                    if o['perm_seed'] % 2 == 0 and len(set(new_vals)) > 2:
+                        two = sorted(set(new_vals), key=str)[:2]
+                        new_vals = [v if v in two else two[0] for v in new_vals]
+                    ctx.probe('relabel_new_names')
                 dd['grp'] = np.array(new_vals) if isinstance(dd['grp'], np.ndarray) else new_vals
                 ti = 0 if ax == 'rdm' else 1
                 tab = {u: dict(v) for u, v in tabs[ti].items()}
